@@ -46,14 +46,15 @@ type SessionOpts struct {
 	// the session and hands the library a plain io.ReadWriter around the
 	// connection (a custom negotiator that wraps the connection and is done).
 	LayeredFinal bool
+	// ContentNS, when set, is the content namespace of the ready-made session
+	// (e.g. jabber:component:accept, the namespace of external components)
+	// instead of jabber:client / jabber:server.  Not combined with Negotiated.
+	ContentNS string
 }
 
 // Header returns the stream header the harness feeds as the peer for opts.
 func (o SessionOpts) Header() string {
-	ns := stanza.NSClient
-	if o.State&xmpp.S2S != 0 {
-		ns = stanza.NSServer
-	}
+	ns := o.NS()
 	if o.WS && o.Negotiated == "" {
 		return `<open xmlns="urn:ietf:params:xml:ns:xmpp-framing" version="1.0" id="hdr1"/>`
 	}
@@ -91,6 +92,9 @@ func (o SessionOpts) Header() string {
 
 // NS returns the content namespace for opts.
 func (o SessionOpts) NS() string {
+	if o.ContentNS != "" {
+		return o.ContentNS
+	}
 	if o.State&xmpp.S2S != 0 {
 		return stanza.NSServer
 	}
